@@ -453,10 +453,116 @@ func runC02(r *core.Run) {
 		r.Violation(s2, w2, map[string]interface{}{"case": cases[jobs[k].ci], "dialect": jobs[k].d.String(), "way": jobs[k].way})
 	}
 	c02Typed(r)
+	c02Retry(r)
 	r.Sample(map[string]interface{}{"format": cases[len(cases)/2].Fmt, "table": fmt.Sprint(cases[len(cases)/2].Rows), "expected": cases[len(cases)/2].Exp.K})
 	r.Coverage["traces_validated_against_impl"] = len(jobs)
 	r.Coverage["format_cases"] = len(cases)
 	r.Coverage["exhaustive"] = r.Thorough
+}
+
+// c02Retry: the two-write history of Formats.tla - a write that is refused (nothing is written) followed by a write that is
+// not - in ONE session, the way the interactive shell and library users meet it: a table of several output buffers gets a
+// cell its format cannot spell near its end, COMMIT is refused, the session goes on, most records (the offending one
+// among them) are deleted, COMMIT again.  The file must be byte-identical after the refusal, and a fresh read after the
+// second COMMIT must show exactly the records that are left.
+func c02Retry(r *core.Run) {
+	type variant struct {
+		name, file, head string
+		row              func(i int) string
+		prep, bad        string
+	}
+	hangul := "\ud55c"
+	vs := []variant{
+		{"LTSV:tab", "t.ltsv", "", func(i int) string { return fmt.Sprintf("id:%d\tc2:v%05d\n", i, i) }, "", "'a\\tb'"},
+		{"CSV:SJIS", "t.csv", "id,c2\n", func(i int) string { return fmt.Sprintf("%d,v%05d\n", i, i) }, "ALTER TABLE `t.csv` SET ENCODING TO SJIS;", "'" + hangul + "'"},
+		{"TSV:SJIS", "t.tsv", "id\tc2\n", func(i int) string { return fmt.Sprintf("%d\tv%05d\n", i, i) }, "ALTER TABLE `t.tsv` SET ENCODING TO SJIS;", "'" + hangul + "'"},
+		{"LTSV:SJIS", "t.ltsv", "", func(i int) string { return fmt.Sprintf("id:%d\tc2:v%05d\n", i, i) }, "ALTER TABLE `t.ltsv` SET ENCODING TO SJIS;", "'" + hangul + "'"},
+	}
+	for vi, v := range vs {
+		n := 900 + r.Rand.Intn(400)
+		keep := 1 + r.Rand.Intn(6)
+		var b strings.Builder
+		b.WriteString(v.head)
+		for i := 1; i <= n; i++ {
+			b.WriteString(v.row(i))
+		}
+		dir := r.Dir(fmt.Sprintf("retry%d", vi))
+		writeFile(filepath.Join(dir, v.file), b.String())
+		sig := "retry:" + v.name
+		desc := fmt.Sprintf("%s of %d records: UPDATE record %d to %s, COMMIT, DELETE id > %d, COMMIT", v.file, n, n-1, v.bad, keep)
+		report := func(kind, what string) {
+			r.Violation(sig+":"+kind, desc+": "+what, map[string]interface{}{"variant": v.name, "records": n, "keep": keep})
+		}
+		func() {
+			defer os.RemoveAll(dir)
+			p, err := sut.NewProc(dir, nil)
+			if err != nil {
+				core.Fail("proc: %v", err)
+			}
+			t := "`" + v.file + "`"
+			if v.prep != "" {
+				if rs := p.Exec(v.prep); rs.Err != "" {
+					p.End()
+					core.Fail("retry %s: %s: %s", v.name, v.prep, rs.Err)
+				}
+			}
+			if rs := p.Exec(fmt.Sprintf("UPDATE %s SET c2 = %s WHERE id = %d;", t, v.bad, n-1)); rs.Err != "" {
+				p.End()
+				core.Fail("retry %s: update: %s", v.name, rs.Err)
+			}
+			rs := p.Exec("COMMIT;")
+			now, _ := os.ReadFile(filepath.Join(dir, v.file))
+			if rs.Err == "" {
+				p.End()
+				report("not-refused", "the first COMMIT succeeded although the format cannot spell the cell")
+				return
+			}
+			if rs.Fatal {
+				p.End()
+				report("fatal", "the first COMMIT failed internally: "+rs.Err)
+				return
+			}
+			if string(now) != b.String() {
+				p.End()
+				report("refused-but-written", fmt.Sprintf("the first COMMIT was refused (%s) but the file changed (%d -> %d bytes)", firstLine(rs.Err), b.Len(), len(now)))
+				return
+			}
+			if rs := p.Exec(fmt.Sprintf("DELETE FROM %s WHERE id > %d;", t, keep)); rs.Err != "" {
+				p.End()
+				report("session-broken", "DELETE after the refused COMMIT fails: "+firstLine(rs.Err))
+				return
+			}
+			rs = p.Exec("COMMIT;")
+			p.End()
+			if rs.Err != "" {
+				report("second-commit", "the second COMMIT fails: "+firstLine(rs.Err))
+				return
+			}
+			q, err := sut.NewProc(dir, nil)
+			if err != nil {
+				core.Fail("proc: %v", err)
+			}
+			defer q.End()
+			rr := q.Exec("SELECT id, c2 FROM " + t + ";")
+			if rr.Err != "" {
+				report("unreadable", "the table does not load after the second COMMIT: "+firstLine(rr.Err))
+				return
+			}
+			ts, err := sut.ParseJSONTables(rr.Out)
+			if err != nil || len(ts) != 1 {
+				core.Fail("retry %s: cannot parse %q", v.name, rr.Out)
+			}
+			ok := len(ts[0].Rows) == keep
+			for i := 0; ok && i < keep; i++ {
+				ok = len(ts[0].Rows[i]) == 2 && ts[0].Rows[i][0].String() == fmt.Sprint(i+1) && ts[0].Rows[i][1].String() == fmt.Sprintf("v%05d", i+1)
+			}
+			if !ok {
+				st, _ := os.Stat(filepath.Join(dir, v.file))
+				report("differs", fmt.Sprintf("a fresh read shows %d records instead of the %d that were left (file: %d bytes)", len(ts[0].Rows), keep, st.Size()))
+			}
+			r.Count("refused_then_written_histories", 1)
+		}()
+	}
 }
 
 // c02Typed: cells are not always texts - a query result holds integers, floats, booleans and datetimes.  Each typed
